@@ -1,6 +1,8 @@
 /-
 Driver for C12 (generic genesis round trip). The prediction for every reachable state is
-"export validates, imports, is a fixpoint, and the query projection is preserved"; the
+"export validates, imports, is a fixpoint, the query projection is preserved, and (as-is
+exports) the original and the re-imported state stay equal while both are driven through the
+blocks in which their pending time-driven items fall due"; the
 per-module theorems live in Props/C12*.lean. The monitor attributes a failing round trip to a
 recorded finding only by its exact symptom (module + failing clause + message), so any other
 failure of the same module is still a violation.
@@ -11,7 +13,7 @@ open Irismod.Line
 
 def genesisModel (line : String) : String :=
   match tokens line with
-  | "genesis" :: "roundtrip" :: _ => "ok export=ok validate=ok import=ok fixpoint=true queries_same=true"
+  | "genesis" :: "roundtrip" :: _ => "ok export=ok validate=ok import=ok fixpoint=true queries_same=true continuation=true"
   | _ => "bad-op"
 
 /-- recorded findings: (module, clause, substring of the observation) ↦ key -/
@@ -54,7 +56,7 @@ def main (args : List String) : IO UInt32 := do
       let t := tokens b[i]!
       let module := arg (tokens (o[i]?.getD "")) "module"
       -- a failed stage leaves the later keys absent: only the first failing clause is reported
-      let clauses := [("export", "ok"), ("validate", "ok"), ("import", "ok"), ("fixpoint", "true"), ("queries_same", "true")]
+      let clauses := [("export", "ok"), ("validate", "ok"), ("import", "ok"), ("fixpoint", "true"), ("queries_same", "true"), ("continuation", "true")]
       match clauses.find? (fun (c, want) => arg t c ≠ want) with
       | some (c, _) =>
         out.putStrLn s!"mon C12 FAIL clause={c} line={i+1} module={module} got={arg t c}{classify module c b[i]!}"
